@@ -289,6 +289,9 @@ inductive StateClass
       outside the hypothesis of `C11_interleaving_irrelevant` (see §4 and known finding
       `macro_fallback_shared_scratch_files`) -/
   | sharedScratchFile
+  /-- mutable process-wide counter whose value only makes names of scratch files unique; the
+      names never reach bindings or side outputs -/
+  | scratchNameCounter
   deriving DecidableEq, Repr
 
 /-- does a state site of this class keep a value across generations of one process? -/
@@ -361,6 +364,7 @@ def stateClasses : List (Nat × StateClass × String) := [
   (1141432568443622269, .declaredOutput, "lib.rs Bindings::write_to_file"),
   (838780915057964615, .declaredOutput, "options/cli.rs --output"),
   (514615211141622946, .hookOnly, "verif.rs log file append"),
+  (524418565135808214, .scratchNameCounter, "ir/context.rs FALLBACK_TU_COUNTER — exists only once fixes/C11-macro-fallback-unique-scratch.diff is applied (row prepared so that the fix does not break the obligation)"),
   (243731835931757708, .hookOnly, "verif.rs thread_local block (log path, unstable pairs)"),
   (797327250632026338, .hookOnly, "verif.rs LOG_PATH"),
   (1059810259706482201, .hookOnly, "verif.rs UNSTABLE"),
@@ -387,6 +391,7 @@ def StateClass.name : StateClass → String
   | .writeOnceEnv => "writeOnceEnv" | .envInput => "envInput"
   | .perGenerationCell => "perGenerationCell" | .hookOnly => "hookOnly" | .buildScript => "buildScript"
   | .declaredOutput => "declaredOutput" | .sharedScratchFile => "sharedScratchFile"
+  | .scratchNameCounter => "scratchNameCounter"
 
 def ConsumerClass.ofName? (s : String) : Option ConsumerClass :=
   [ConsumerClass.collectOrdered, .sortAfter, .anyAll, .findUnique, .insertAll, .forEachIndependent,
